@@ -1,5 +1,10 @@
 package cmd
 
+import (
+	"github.com/mikefarah/yq/v4/pkg/yqlib"
+	"github.com/spf13/cobra"
+)
+
 // C19 / C11 at the command layer: format selection must end in a decoder/encoder or an error, never a crash.
 
 var verifFormatNames = []string{"yaml", "y", "yml", "json", "j", "props", "p", "properties", "csv", "c", "tsv", "t", "xml", "x",
@@ -22,4 +27,55 @@ func VerifCmdConfigureCodec() {
 		verifCover("C19/cmd/encoder")
 	}
 	verifCover("C19/cmd/end")
+}
+
+var verifInitFiles = []string{"a.yml", "a.yaml", "d.d/a.json", "a.xml", "a.toml", "a.csv", "a.tsv", "a.properties", "a.lua", "A.JSON", "a.b.json", "noext", "a.unknown", "a.sh"}
+var verifInitExpect = []string{"yaml", "yaml", "json", "xml", "toml", "csv", "tsv", "props", "lua", "json", "json", "yaml", "yaml", "shell"}
+
+// VerifCmdInitFormats: initCommand's choice of input and output format. With both left automatic they are the
+// format named by the first file's extension (yaml when the extension names none); an explicit choice is kept;
+// scalars are unwrapped by default exactly for yaml and properties output.
+func VerifCmdInitFormats() {
+	yqlib.InitExpressionParser()
+	verifResetFlags()
+	verifGlue = &verifGlueState{fileExists: map[string]bool{}}
+	fi := verifChoice("file", len(verifInitFiles))
+	file := verifInitFiles[fi]
+	verifGlue.fileExists[file] = true
+	in := verifConcreteStr(verifPick("inputFormat", "", "auto", "a", "json", "yaml", "csv"))
+	out := verifConcreteStr(verifPick("outputFormat", "", "auto", "a", "json", "props", "yaml"))
+	inputFormat, outputFormat = in, out
+	_, args, err := initCommand(&cobra.Command{}, []string{".", file})
+	autoIn := in == "" || in == "auto" || in == "a"
+	autoOut := out == "" || out == "auto" || out == "a"
+	label := "file=" + file
+	if err != nil {
+		verifCover("C19/init/error")
+		// only an output-only format can make a valid command line fail here — and only at decoder time, not here
+		verifAssert(false, "C19/init-rejects-valid-command-line "+label)
+		return
+	}
+	verifAssert(len(args) == 1 && args[0] == file, "C19/init-lost-the-file-argument "+label)
+	inF, errIn := yqlib.FormatFromString(inputFormat)
+	outF, errOut := yqlib.FormatFromString(outputFormat)
+	verifAssert(errIn == nil && errOut == nil && inF != nil && outF != nil, "C19/init-left-an-unknown-format "+label)
+	if errIn != nil || errOut != nil || inF == nil || outF == nil {
+		return
+	}
+	want := verifInitExpect[fi]
+	if autoIn {
+		verifAssert(inF.FormalName == want, "C19/automatic-input-format-is-not-the-extension's "+label)
+		if autoOut {
+			verifAssert(outF.FormalName == want, "C19/automatic-output-format-is-not-the-extension's "+label)
+		}
+	} else {
+		explicit, _ := yqlib.FormatFromString(in)
+		verifAssert(inF == explicit, "C19/explicit-input-format-replaced "+label)
+	}
+	if !autoOut {
+		explicit, _ := yqlib.FormatFromString(out)
+		verifAssert(outF == explicit, "C19/explicit-output-format-replaced "+label)
+	}
+	verifAssert(unwrapScalar == (outF == yqlib.YamlFormat || outF == yqlib.PropertiesFormat), "C19/unwrap-scalar-default-wrong "+label)
+	verifCover("C19/init/end")
 }
